@@ -11,7 +11,7 @@ RULE = ("correspondence: random operation sequences (pushes incl. forced/dry-mas
         "implementation after every operation of fresh sequences. non-trivial = distinct sequence of >= 3 operations")
 
 if __name__ == "__main__":
-    sys.exit(comp_check.run("C05", "tank qtank arc qarc altarc".split(), RULE,
+    sys.exit(comp_check.run("C05", "tank qtank arc qarc altarc tarea".split(), RULE,
                             ["exact-rational semantics stands for float semantics up to rounding",
                              "offers are wet (non-negative, pollutant mass only with positive volume); no arc-level force for capacity clauses",
                              "end nodes respect the reply contract (proved for tank-backed ends)"]))
